@@ -54,6 +54,7 @@ type File struct {
 	Name    string
 	Imports []string // import paths of other project packages whose F-functions are called
 	Calls   []string // qualified functions to call, e.g. "libb.F0"
+	Blank   []string // import paths of project packages imported for side effects only (`_ "path"`)
 	Funcs   []*Func
 	Globals []*Node // global closures
 	IsMain  bool
@@ -217,6 +218,9 @@ func (f *File) Render(old bool) string {
 	}
 	for _, i := range f.Imports {
 		imps = append(imps, fmt.Sprintf("%q", i))
+	}
+	for _, i := range f.Blank {
+		imps = append(imps, fmt.Sprintf("_ %q", i))
 	}
 	if len(imps) == 1 {
 		w.line(0, "import %s", imps[0])
